@@ -486,3 +486,47 @@ impl fmt::Display for Program {
         write!(f, " }}")
     }
 }
+
+impl G {
+    /// Apply `f` to every term of the goal (patterns of match arms excluded), recursively.
+    pub fn map_terms(&self, f: &dyn Fn(&T) -> T) -> G {
+        let mc = |cs: &Vec<Vec<G>>| -> Vec<Vec<G>> { cs.iter().map(|c| c.iter().map(|g| g.map_terms(f)).collect()).collect() };
+        let ml = |gs: &Vec<G>| -> Vec<G> { gs.iter().map(|g| g.map_terms(f)).collect() };
+        match self {
+            G::Eq(a, b) => G::Eq(f(a), f(b)),
+            G::Diseq(a, b) => G::Diseq(f(a), f(b)),
+            G::Succeed | G::Fail | G::Always | G::Never | G::Probe(_) => self.clone(),
+            G::Conj(gs) => G::Conj(ml(gs)),
+            G::Conde(cs) => G::Conde(mc(cs)),
+            G::Cond(cs) => G::Cond(mc(cs)),
+            G::Fresh(vs, gs) => G::Fresh(vs.clone(), ml(gs)),
+            G::Dfs(cs) => G::Dfs(mc(cs)),
+            G::Loop(cs) => G::Loop(mc(cs)),
+            G::Conda(cs) => G::Conda(mc(cs)),
+            G::Condu(cs) => G::Condu(mc(cs)),
+            G::Onceo(cs) => G::Onceo(mc(cs)),
+            G::Project(vs, gs) => G::Project(vs.clone(), ml(gs)),
+            G::For(v, k, coll, cs) => G::For(*v, *k, coll.iter().map(|t| f(t)).collect(), mc(cs)),
+            G::Match(k, s, arms) => G::Match(*k, f(s), arms.iter().map(|a| Arm { pats: a.pats.clone(), body: ml(&a.body) }).collect()),
+            G::Closure(gs) => G::Closure(ml(gs)),
+            G::Call(r, ts) => G::Call(*r, ts.iter().map(|t| f(t)).collect()),
+            G::RecCall(k, ts) => G::RecCall(*k, ts.iter().map(|t| f(t)).collect()),
+            G::InFd(t, d) => G::InFd(f(t), d.clone()),
+            G::InFdRange(t, lo, hi) => G::InFdRange(f(t), *lo, *hi),
+            G::Ltefd(a, b) => G::Ltefd(f(a), f(b)),
+            G::Ltfd(a, b) => G::Ltfd(f(a), f(b)),
+            G::Plusfd(a, b, c) => G::Plusfd(f(a), f(b), f(c)),
+            G::Minusfd(a, b, c) => G::Minusfd(f(a), f(b), f(c)),
+            G::Timesfd(a, b, c) => G::Timesfd(f(a), f(b), f(c)),
+            G::Diseqfd(a, b) => G::Diseqfd(f(a), f(b)),
+            G::Distinctfd(a) => G::Distinctfd(f(a)),
+            G::Plusz(a, b, c) => G::Plusz(f(a), f(b), f(c)),
+            G::Timesz(a, b, c) => G::Timesz(f(a), f(b), f(c)),
+        }
+    }
+
+    /// Substitute a term for a (free) variable name.
+    pub fn subst_var(&self, x: V, t: &T) -> G {
+        self.map_terms(&|u: &T| u.map_vars(&|w| if w == x { t.clone() } else { T::Var(w) }))
+    }
+}
